@@ -33,7 +33,8 @@ REQS = [{"path": "/ok", "accept_encoding": "gzip"}, {"path": "/small", "accept_e
         {"path": "/boom"}, {"path": "/ctx"}, {"path": "/redir"}, {"path": "/nb"}, {"path": "/bin", "accept_encoding": "gzip"},
         {"path": "/ok", "method": "HEAD", "accept_encoding": "gzip"},
         {"path": "/ok", "accept_encoding": "gzip;q=0"}, {"path": "/ok", "accept_encoding": "identity, gzip;q=0"},
-        {"path": "/ok", "accept_encoding": "*;q=0"}, {"path": "/ok", "accept_encoding": "deflate, gzip;q=0.5"}]
+        {"path": "/ok", "accept_encoding": "*;q=0"}, {"path": "/ok", "accept_encoding": "deflate, gzip;q=0.5"},
+        {"path": "/return_big_http", "accept_encoding": "gzip"}, {"path": "/noct"}]
 NATIVE = {'compress': 'gzip', 'client_cache': 'cache', 'stats': 'stats', 'profile': 'profile', 'cookie': 'cookie',
           'url.GetParam': 'getparam', 'form': 'postdata', 'url.ScriptRoot': 'scriptroot'}
 
@@ -43,6 +44,7 @@ def build(pc, E, canary=None):
     pc.add_functions(E, TARGETS)
     if canary is not None:
         return
+    bounded_composition(pc, E)
     pc.assumptions += [
         'attribute tables of Response / HTTPException instances by reflection of the installed classes; any other '
         'BaseResponse subclass returned by application code is outside the quantifier',
@@ -84,3 +86,38 @@ def refute(pc, unknown_items):
 
 def fallback(pc):
     return [{'script': 'mw_case.py', 'case': {'mw': mw, 'requests': REQS}} for mw in sorted(set(NATIVE.values()))]
+
+
+def bounded_composition(pc, E):
+    """bounded stand-in (labelled bounded): each middleware's own `request` function is under contract, but what the
+    client finally receives also depends on what dispatch does AFTER the middleware returned (an HTTPException an
+    endpoint returned is re-rendered by the error handler).  The scenario application is compared with and
+    without each middleware natively."""
+    import json
+    import os
+    from pyvc.run import native, HERE
+    bad = []
+    n = 0
+    for mw in sorted(set(NATIVE.values())):
+        case = {'mw': mw, 'requests': REQS}
+        try:
+            out = native('mw_case.py', case, repo_root=E.repo.root)
+        except Exception as e:
+            pc.errors.append('bounded stand-in (middleware composition, %s) crashed: %r' % (mw, e))
+            continue
+        n += len(REQS)
+        if out.get('harness_error'):
+            pc.errors.append('bounded stand-in (middleware composition, %s): %s' % (mw, out['harness_error'][-300:]))
+        if out.get('fails'):
+            bad.append((case, out))
+    pc.bounded.append({'what': 'scenario application (every response kind incl. a large returned HTTPException and a response '
+                               'without Content-Type) with vs without each built-in middleware: status, decoded body, gzip '
+                               'headers, Accept-Encoding incl. q=0', 'bound': '%d requests x %d middlewares' % (len(REQS), len(set(NATIVE.values()))),
+                       'cases': n, 'failures': len(bad), 'label': 'bounded'})
+    if bad:
+        fn = 'replays/C15-bounded-composition.json'
+        os.makedirs(os.path.join(HERE, 'replays'), exist_ok=True)
+        with open(os.path.join(HERE, fn), 'w') as f:
+            json.dump({'property': 'C15', 'obligation': 'C15.B/middleware-composition (bounded stand-in)',
+                       'concretised_input': {'script': 'mw_case.py', 'case': bad[0][0]}, 'native_observation': bad[0][1]}, f, indent=1)
+        pc.violations.append(('C15.B/middleware-composition', fn, True))
